@@ -617,6 +617,21 @@ fn geometric_layouts() -> Vec<Case> {
             }
         }
     }
+    // names where one is a proper prefix of the next (chr1 -> chr10, chr1 -> chr1_1, chr1 -> chr1_2 ...),
+    // the first line of the second run as long as / longer than the lines before it
+    for (a, b) in [(0u8, 4u8), (0, 8), (8, 16), (1, 9)] {
+        for extra_b in [0u32, 1, 2, 3, 40] {
+            for na in 1..=3usize {
+                for final_newline in [true, false] {
+                    let mut lines: Vec<(u8, u32)> = vec![(a, 0); na];
+                    lines.push((b, extra_b));
+                    lines.push((b, 0));
+                    lines.push((b, 0));
+                    v.push(Case::TextFile { lines, final_newline, grouped: true });
+                }
+            }
+        }
+    }
     for long in [8191u32, 8192, 8193, 20_000, 70_000] {
         v.push(Case::TextFile { lines: vec![(0, 0), (0, long), (0, 0), (1, 0), (1, long), (2, 0)], final_newline: true, grouped: true });
         v.push(Case::TextFile { lines: vec![(0, long), (1, 0), (1, 0), (2, long)], final_newline: false, grouped: true });
